@@ -299,6 +299,64 @@ func init() {
 		return p.call(fr, nf, nil)
 	}, "(*sync.Pool).Get")
 
+	// ---- sync.Map as a per-path association map keyed by the receiver
+	syncMap := func(p *Path, recv Value) *Map {
+		ms, _ := p.state["syncmaps"].(map[*Value]*Map)
+		if ms == nil {
+			ms = map[*Value]*Map{}
+			p.state["syncmaps"] = ms
+		}
+		k := recv.(*Value)
+		if ms[k] == nil {
+			ms[k] = newMap()
+		}
+		return ms[k]
+	}
+	reg(func(p *Path, fr *frame, fn *ssa.Function, args []Value) Value {
+		if e := p.mapFind(fr, syncMap(p, args[0]), args[1], nil); e != nil {
+			return Tuple{e.v, sym.True}
+		}
+		return Tuple{Iface{}, sym.False}
+	}, "(*sync.Map).Load")
+	reg(func(p *Path, fr *frame, fn *ssa.Function, args []Value) Value {
+		p.mapSet(fr, syncMap(p, args[0]), args[1], args[2])
+		return nil
+	}, "(*sync.Map).Store")
+	reg(func(p *Path, fr *frame, fn *ssa.Function, args []Value) Value {
+		p.mapDelete(fr, syncMap(p, args[0]), args[1])
+		return nil
+	}, "(*sync.Map).Delete")
+	reg(func(p *Path, fr *frame, fn *ssa.Function, args []Value) Value {
+		m := syncMap(p, args[0])
+		if e := p.mapFind(fr, m, args[1], nil); e != nil {
+			return Tuple{e.v, sym.True}
+		}
+		p.mapSet(fr, m, args[1], args[2])
+		return Tuple{args[2], sym.False}
+	}, "(*sync.Map).LoadOrStore")
+	reg(func(p *Path, fr *frame, fn *ssa.Function, args []Value) Value {
+		m := syncMap(p, args[0])
+		e := p.mapFind(fr, m, args[1], nil)
+		if e == nil {
+			return Tuple{Iface{}, sym.False}
+		}
+		v := e.v
+		p.mapDelete(fr, m, args[1])
+		return Tuple{v, sym.True}
+	}, "(*sync.Map).LoadAndDelete")
+	reg(func(p *Path, fr *frame, fn *ssa.Function, args []Value) Value {
+		m := syncMap(p, args[0])
+		for _, e := range append([]*mapEntry{}, m.entries...) {
+			if e.deleted {
+				continue
+			}
+			if !p.Branch(termOf(p.call(fr, args[1], []Value{e.k, e.v})), fr) {
+				break
+			}
+		}
+		return nil
+	}, "(*sync.Map).Range")
+
 	// ---- sync/atomic on plain cells
 	atomicLoad := func(p *Path, fr *frame, fn *ssa.Function, args []Value) Value { return p.load(fr, args[0]) }
 	atomicStore := func(p *Path, fr *frame, fn *ssa.Function, args []Value) Value {
@@ -443,6 +501,16 @@ func init() {
 	reg(func(p *Path, fr *frame, fn *ssa.Function, args []Value) Value {
 		return Slice{A: []Value{&Handle{Kind: "opaque:s3-error-document", P: args[0]}}}
 	}, "github.com/versity/versitygw/s3err.GetAPIErrorResponse")
+	reg(func(p *Path, fr *frame, fn *ssa.Function, args []Value) Value {
+		st := args[0].(Struct)
+		return strConcat(strConcat(st[0], ": "), st[1])
+	}, "(github.com/versity/versitygw/s3err.APIError).Error")
+	// ---- context.WithValue without reflection
+	reg(func(p *Path, fr *frame, fn *ssa.Function, args []Value) Value {
+		vt := p.eng.pkgByID["context"].Type("valueCtx").Type()
+		var sv Value = Struct{args[0], args[1], args[2]}
+		return Iface{T: types.NewPointer(vt), V: &sv}
+	}, "context.WithValue")
 	// ---- unsafe builtins appear as functions in a few stdlib spots
 	reg(nop, "os.runtime_beforeExit")
 }
